@@ -99,6 +99,15 @@ func checkIDLength(id, kind string) (err error) {
 	return
 }
 
+// checkValidRoomID checks that a room ID is one that spec.NewRoomID accepts,
+// so that PDU.RoomID() cannot fail on an event that has been parsed.
+func checkValidRoomID(id string) error {
+	if _, err := spec.NewRoomID(id); err != nil {
+		return fmt.Errorf("gomatrixserverlib: invalid room ID %q: %w", id, err)
+	}
+	return nil
+}
+
 // SplitID splits a matrix ID into a local part and a server name.
 func SplitID(sigil byte, id string) (local string, domain spec.ServerName, err error) {
 	// IDs have the format: SIGIL LOCALPART ":" DOMAIN
